@@ -72,6 +72,14 @@ CLAIMED = {
                      'cross-validation run); argparse runs for real on concrete argument vectors; shlex.split modelled for text without quotes. Mostly finite: the SMT content is '
                      'the written values and the presence flags.',
                 ref='DESIGN.md section 5 C16'),
+    'C18': dict(level='model_checking',
+                text='splitColumns: for <= 5 (thorough 8) entries with UNBOUNDED symbolic sizes and 1..4 columns the result is an order-preserving partition into exactly the requested '
+                     'number of columns; entry parser: every \\index argument of 4 (6) symbolic characters over {a, b, !, @, |, "} is split into levels / sort keys / format as makeindex '
+                     'syntax prescribes; sort + prefix merge: every ordered selection of 3 (4) entries from a pool of 9 (12) key paths gives the reference tree (one line per path, '
+                     'one page per occurrence, collation order, ties in any order); groups: symbolic ASCII initials land under the right heading, groups and columns partition the entries in order.',
+                note='Collation is this installation\'s fallback (lower-casing); unidecode modelled as the identity on ASCII; int(a/b) as truncated real division. Key multisets for '
+                     'sort+merge are finite choices. Non-ASCII keys are outside the claim.',
+                ref='DESIGN.md section 5 C18'),
     'C19': dict(level='model_checking',
                 text='Bounded exhaustive over all expression trees of depth <= 2 (thorough: depth 3 with <= 5 atoms, depth-4 chains) written as LaTeX source: for every '
                      'valuation of the atoms (booleans, symbolic digits and relation characters, symbolic \\equal letters) exactly the branch denoted by the expression '
